@@ -102,7 +102,7 @@ theorem inv2_fields {s s' : Sh} {ts : List Th} (h : Inv2 s ts) (hh : s'.heap = s
 /-- A thread changes its local state; the shared state stays. -/
 theorem inv2_move {s : Sh} {l r : List Th} {t t' : Th} (h : Inv2 s (l ++ t :: r))
     (hheld : ∀ e, t'.held = some e → t.held = some e) (hpend : t'.pend = t.pend)
-    (hsd : t'.sdPend = true → t.sdPend = true)
+    (hsd : t'.sdPend = true → t.sdPend = true ∨ s.isShutdown = true)
     (hlv : s.maxSize = 0 → s.isShutdown = false → ∀ i x, regGet s.reg i = some x → x ∉ s.closed →
       pre x t + wr x t ≤ pre x t' + wr x t') : Inv2 s (l ++ t' :: r) := by
   constructor
@@ -124,7 +124,10 @@ theorem inv2_move {s : Sh} {l r : List Th} {t t' : Th} (h : Inv2 s (l ++ t :: r)
   · exact h.sdinv
   · rw [forall_mid]
     have := forall_mid.mp h.sdpc
-    exact ⟨this.1, fun hp => this.2.1 (hsd hp), this.2.2⟩
+    exact ⟨this.1, fun hp => (hsd hp).elim this.2.1 id, this.2.2⟩
+
+theorem held_none_zero {t : Th} (h : t.held = none) (x : Nat) : pre x t = 0 ∧ wr x t = 0 := by
+  cases t <;> simp_all [Th.held, pre, wr]
 
 theorem held_count {u : Th} {e : Elem} (h : u.held = some e) : pre e.serial u + wr e.serial u = 1 := by
   cases u <;> simp only [Th.held, Option.some.injEq, reduceCtorEq] at h <;> subst h <;> simp [pre, wr]
